@@ -986,6 +986,13 @@ def check_C16(rep, scr, tier, seed):
                 for _ in range(2 if tier == 'quick' else 8):
                     n += 1; data = b''.join(key4(rng.randrange(0, 50 if size > 1 else 7), size) for _ in range(nm))
                     cases.append(vlib.Case('q%d' % n, 'qsort_s', [('R', data)], [(0, 0), nm, size, UNK], {'cls': 'qsort', 'nmemb': nm, 'size': size, 'func': 'qsort_s'}))
+        # qsort_s called again from inside its own comparator (a second array, sorted completely at every comparison of the first)
+        for size in (4, 24):
+            for nm in (3, 7, 12, 20):
+                for nm2 in (2, 5, 9):
+                    n += 1
+                    d1 = b''.join(key4(rng.randrange(0, 50), size) for _ in range(nm)); d2 = b''.join(key4(rng.randrange(0, 50), size) for _ in range(nm2))
+                    cases.append(vlib.Case('q%d' % n, 'qsort_nested', [('R', d1), ('R', d2)], [(0, 0), nm, size, UNK, (1, 0), nm2], {'cls': 'qsort-nested', 'nmemb': nm, 'size': size, 'nmemb2': nm2, 'func': 'qsort_nested'}))
         # bsearch_s on sorted arrays: every key from below the minimum to above the maximum
         for size in (1, 4, 7):
             for nm in range(0, 12 if tier == 'quick' else 24):
@@ -1006,7 +1013,7 @@ def check_C16(rep, scr, tier, seed):
             for x in bs: f.write(x.line() + '\n')
         om = vlib.run_model(md, vlib.model_args(consts), cfb)
         # qsort_s: the extracted smoothsort model (coq/ModSort.v) on the same keys: final arrangement and comparator-call trace
-        qs = [x for x in cases if x.func == 'qsort_s' and x.meta['nmemb'] > 0]
+        qs = [x for x in cases if x.func == 'qsort_s' and x.meta['nmemb'] > 0]   # (the nested cases are judged on the implementation side only)
         sm_in = '\n'.join('%s %d %s' % (x.id, x.meta['nmemb'], ' '.join(str(int.from_bytes(x.blocks[0][1][i * x.meta['size']:i * x.meta['size'] + min(x.meta['size'], 4)], 'big')) for i in range(x.meta['nmemb']))) for x in qs) + '\n'
         rc_, o_, e_ = vlib.sh([os.path.dirname(md) + '/sort_model'], inp=sm_in, timeout=900)
         smod = {}
@@ -1022,9 +1029,16 @@ def check_C16(rep, scr, tier, seed):
             fails = []
             if a.fault != '-': fails.append(('fault', 'access outside nmemb*size bytes: fault at %s' % a.fault))
             else:
-                rv, bad = a.ret.split(',') if ',' in a.ret else (a.ret, '0')
+                rv, bad = (a.ret.split(',') + ['0'])[:2]
                 if bad != '0': fails.append(('comparator-args', 'the comparator was called with %s' % ('a foreign context' if int(bad) & 1 else 'a pointer that is not an element of the array / the key')))
                 size, nm = m['size'], m['nmemb']; k = min(size, 4)
+                if x.func == 'qsort_nested':
+                    rv, bad, innerbad, inner = a.ret.split(',')
+                    before = [x.blocks[0][1][i * size:(i + 1) * size] for i in range(nm)]; after = [a.blocks[0][i * size:(i + 1) * size] for i in range(nm)]
+                    if rv != '0': fails.append(('error-return', 'qsort_s returned %s on valid arguments' % rv))
+                    elif sorted(before) != sorted(after): fails.append(('nested-not-a-permutation', 'with a comparator that sorts a second array (%d elements) by qsort_s at every call, the result of the outer sort (%d elements of %d bytes) is not a permutation of its input' % (m['nmemb2'], nm, size)))
+                    elif any(after[i][:k] > after[i + 1][:k] for i in range(nm - 1)): fails.append(('nested-not-sorted', 'with a comparator that sorts a second array (%d elements) by qsort_s at every call, the outer sort (%d elements of %d bytes) is not ordered' % (m['nmemb2'], nm, size)))
+                    if innerbad != '0': fails.append(('nested-inner-wrong', '%s of the %s inner sorts made from inside the comparator were not ordered' % (innerbad, inner)))
                 if x.func == 'qsort_s' and nm > 0:
                     before = [x.blocks[0][1][i * size:(i + 1) * size] for i in range(nm)]; after = [a.blocks[0][i * size:(i + 1) * size] for i in range(nm)]
                     if rv != '0': fails.append(('error-return', 'qsort_s returned %s on valid arguments' % rv))
@@ -1210,7 +1224,8 @@ def check_C20(rep, scr, tier, seed):
         for kind, text in fails:
             kid = None
             for kf in rep.known:
-                if m['site'] in kf.get('sites', '').split(',') and kind in kf.get('kinds', '').split(','): kid = kf['id']
+                kinds = kf.get('kinds_by_function', {}).get(x.func, kf.get('kinds', ''))     # a finding may list, per function, which ways of failing it covers
+                if m['site'] in kf.get('sites', '').split(',') and kind in kinds.split(','): kid = kf['id']
             if kid: rep.known_hits[kid] = rep.known_hits.get(kid, 0) + 1
             else: rep.violation('%s [%s]: %s' % (x.func, m['site'], text), {'key': (m['site'], x.func, kind), 'property': 'C20', 'function': x.func, 'site': m['site'], 'failure': kind, 'fail_request': m['k'],
                                 'case': x.to_json(), 'case_line': x.line(), 'impl_outcome': o.raw})
